@@ -22,8 +22,8 @@ RULE = ('vectors of length 1, 3, 6 with components 1e-6..1e6; rigid motions T, T
         'transposed block or a sign slip cannot vanish)')
 ASSUMPTIONS = ['6x6 reference adjoint [[R, [t]x R],[0, R]] for twists ordered (v, w); expm(ad S) by scipy.linalg.expm in float64 '
                '(a sample re-checked with mpmath at 50 digits)', 'tr2delta equals the logarithm up to 2|d|^2']
-MIN_EVALS = {'maps': {'quick': 4000, 'thorough': 60000}, 'adjoint': {'quick': 4000, 'thorough': 60000},
-             'delta': {'quick': 2500, 'thorough': 40000}, 'symbolic': {'quick': 6, 'thorough': 6}}
+MIN_EVALS = {'maps': {'quick': 3000, 'thorough': 60000}, 'adjoint': {'quick': 3000, 'thorough': 60000},
+             'delta': {'quick': 1800, 'thorough': 40000}, 'symbolic': {'quick': 6, 'thorough': 6}}
 
 
 def S():
